@@ -150,6 +150,29 @@ JudgeSink(e) ==
              \cup (IF e.isPrefix THEN {} ELSE {"C14/AcceptedNotPrefix"}))
 JudgeAttSrc(e) == IF e.ret = "err" THEN {} ELSE IF e.ret = "panic" THEN {"C14/Panic"} ELSE {"C14/AttachmentSourceNotReported"}
 
+(* C16: what the Python readers return for a Go-written file (streaming reader on every file; seeking reader in
+   file, log-time and reverse log-time order where the summary carries the indexes it relies on) *)
+SortedBy(msgs, order) == \A i \in 1 .. Len(msgs) - 1 :
+   IF order = "log" THEN msgs[i].msg.log <= msgs[i + 1].msg.log ELSE msgs[i].msg.log >= msgs[i + 1].msg.log
+JudgePy(s, e) ==
+  IF s.phase # "closed" THEN {}
+  ELSE IF e["end"] # "ok" THEN {"C16/Python/" \o e.via \o "/Error"}
+  ELSE LET msgs == Sel(s.data, LAMBDA r : r.k = "Message")
+           bySeq(q) == Sel(msgs, LAMBDA m : m.seq = q) IN
+    (IF e.header # <<>> /\ s.header # <<>> /\ e.header[1].profile = s.header[1].profile /\ e.header[1].library = s.header[1].library THEN {} ELSE {"C16/Python/Header"})
+    \cup (IF e.order = "file"
+          THEN (IF Len(e.msgs) = Len(msgs) /\ \A i \in DOMAIN msgs : TripleOK(s, e.msgs[i], msgs[i]) THEN {} ELSE {"C16/Python/" \o e.via \o "/Messages"})
+          ELSE (IF /\ Len(e.msgs) = Len(msgs)
+                   /\ \A i \in DOMAIN e.msgs : bySeq(e.msgs[i].msg.seq) # <<>> /\ TripleOK(s, e.msgs[i], bySeq(e.msgs[i].msg.seq)[1])
+                   /\ \A i, j \in DOMAIN e.msgs : e.msgs[i].msg.seq = e.msgs[j].msg.seq => i = j
+                THEN {} ELSE {"C16/Python/seek/OrderedMessages"})
+               \cup (IF SortedBy(e.msgs, e.order) THEN {} ELSE {"C16/Python/seek/Sorted"}))
+    \cup (IF e.order # "file" \/ ~e.hasatts \/ (Len(e.atts) = Len(s.atts) /\ \A i \in DOMAIN e.atts : SameAtt(e.atts[i], s.atts[i])) THEN {} ELSE {"C16/Python/" \o e.via \o "/Attachments"})
+    \cup (IF e.order # "file" \/ ~e.hasmds \/ (Len(e.mds) = Len(s.mds) /\ \A i \in DOMAIN e.mds : SameMd(e.mds[i], s.mds[i])) THEN {} ELSE {"C16/Python/" \o e.via \o "/Metadata"})
+    \cup (IF e.order # "file" \/ s.cfg.skipStats THEN {}
+          ELSE IF e.stats = <<>> THEN {"C16/Python/Statistics/Missing"}
+          ELSE {"C16/Python/Statistics/" \o x : x \in Failed("", StatsNames(e.stats[1], Content(s), e.stats[1].chunks))})
+
 (* C17: conformance matrix.  Pin: the reference encoder reproduces the official binary (sha256 and size of the LFS
    pointer); WriteTool: the Go write tool's output hashes to the same binary; ReadTool: the Go read tool prints the
    expected record stream (streamed) / the expected indexed result *)
@@ -177,6 +200,8 @@ Judge(s, e) ==
     [] e.ev = "Sink"   -> JudgeSink(e)
     [] e.ev = "AttSrc" -> JudgeAttSrc(e)
     [] e.ev \in {"Pin", "WriteTool", "ReadTool"} -> JudgeConformance(e)
+    [] e.ev = "PyRead" -> JudgePy(s, e)
+    [] e.ev = "PyWrite" -> IF e.ok THEN {} ELSE {"C16/PythonWriter/Failed"}
     [] OTHER -> {}
 
 Init == l = 1 /\ st = NoRun /\ rej = <<>>
